@@ -648,12 +648,20 @@ func genConfigFor(t *rapid.T, kind string, paths []string, hot []string, ver str
 	}
 	cfg.AllowCommentIgnores = kind == "lint" && rapid.IntRange(0, 3).Draw(t, "allowcomments") != 0
 	unknown := true
-	for i := 0; i < 5; i++ { // five fair coins: 1/32 (rapid's integer ranges are biased towards small values)
+	for i := 0; i < 4; i++ { // four fair coins: 1/16 (rapid's integer ranges are biased towards small values)
 		unknown = unknown && rapid.Bool().Draw(t, "unknown")
 	}
 	if unknown {
 		cfg.HasUnknown = true
 		bad := []string{"NOT_A_RULE", "STANDARDX", "FIELD_NO_DELET", "comments"}[rapid.IntRange(0, 3).Draw(t, "badid")]
+		if rapid.Bool().Draw(t, "crosstype") {
+			// an id that exists, but for the other kind of check
+			other := []string{"FIELD_NO_DELETE", "FILE", "WIRE_JSON", "ENUM_VALUE_NO_DELETE", "PACKAGE_NO_DELETE"}
+			if kind == "breaking" {
+				other = []string{"ENUM_PASCAL_CASE", "MINIMAL", "COMMENTS", "FIELD_LOWER_SNAKE_CASE", "STANDARD"}
+			}
+			bad = other[rapid.IntRange(0, len(other)-1).Draw(t, "crossid")]
+		}
 		switch rapid.IntRange(0, 2).Draw(t, "badwhere") {
 		case 0:
 			cfg.Use = append(cfg.Use, bad)
